@@ -347,9 +347,9 @@ Proof.
   intros Hin. apply H2. now apply in_map.
 Qed.
 
-Lemma indices_spec dims a :
+Lemma indices_spec_rec dims a :
   Forall dim_ok dims -> in_doms a (dim_values dims) ->
-  exists t, indices dims a = Some t /\ token_indices dims (map str_value a) = Ok t
+  exists t, indices dims a = Some t /\ token_indices_rec dims (map str_value a) = Ok t
             /\ In t (all_tuples (shape_of dims)).
 Proof.
   intros Hok; revert a; induction dims as [|v dr IH]; intros a H; inversion H; subst.
@@ -361,6 +361,21 @@ Proof.
     rewrite E2. simpl. split; auto. split; auto.
     unfold all_tuples. simpl map. apply in_product_cons. split; auto.
     apply in_seq. apply index_of_lt in Ei. lia.
+Qed.
+
+Lemma forall2_length {A B} (R : A -> B -> Prop) l1 l2 :
+  Forall2 R l1 l2 -> List.length l1 = List.length l2.
+Proof. induction 1; simpl; congruence. Qed.
+
+Lemma indices_spec dims a :
+  Forall dim_ok dims -> in_doms a (dim_values dims) ->
+  exists t, indices dims a = Some t /\ token_indices dims (map str_value a) = Ok t
+            /\ In t (all_tuples (shape_of dims)).
+Proof.
+  intros Hok Ha. destruct (indices_spec_rec dims a Hok Ha) as [t [E1 [E2 E3]]].
+  exists t. split; auto. split; auto. unfold token_indices.
+  apply forall2_length in Ha. unfold dim_values in Ha. rewrite map_length in Ha.
+  rewrite map_length, <- Ha, Nat.eqb_refl. exact E2.
 Qed.
 
 Lemma indices_cover dims t :
